@@ -5,9 +5,11 @@ import (
 
 	"github.com/glebziz/fs_db/internal/model"
 	"github.com/glebziz/fs_db/internal/model/sequence"
+	"github.com/glebziz/fs_db/internal/verifhook"
 )
 
 func (u *UseCase) DeleteOld(_ context.Context, txId string, beforeSeq sequence.Seq) []model.File {
+	verifhook.At("core.deleteOld")
 	tx, ok := u.txStore.Get(txId)
 	if !ok {
 		return nil
